@@ -6,8 +6,8 @@ V = os.path.dirname(os.path.dirname(os.path.abspath(__file__)))
 
 CHECKS = {
  "C01": ("model_checking", "abstract interpretation of MIR to a pushdown transducer, product with RFC 8259 reference transducer",
-         "Language equality L(P(strict)) = L(R(strict)) of the parser model P, extracted by abstract interpretation from the monomorphic MIR of the current tree, with the hand-written RFC 8259 transducer R: joint exploration over the whole char range (interval partition), all inputs, nesting depth explored exactly to K (2 quick / 4 thorough; deeper levels behave like depth 2 because the explicit stack is only pushed/popped); plus C01.entry: each of the 13 public entry points is interpreted up to the call of the shared core and its input adaptor is interpreted per item shape. Not a proof of the behavioural statement: the byte-level UTF-8 decoder is covered only where noted.",
-         "trusts: rustc MIR, the summary table (jsv/summ.py), the reference transducer, two private anchors (IndexMap bookkeeping, NumberBuf::new_unchecked). Byte-level UTF-8 well-formedness of parse_slice (dependency utf8-decode) is decided separately (see notes); iterator assumed fused.", "3/C01"),
+         "Language equality L(P(strict)) = L(R(strict)) of the parser model P, extracted by abstract interpretation from the monomorphic MIR of the current tree, with the hand-written RFC 8259 transducer R: joint exploration over the whole char range (interval partition), all inputs, nesting depth explored exactly to K (2 quick / 4 thorough; deeper levels behave like depth 2 because the explicit stack is only pushed/popped); plus C01.entry: each of the 13 public entry points is interpreted up to the call of the shared core (fresh parser, strict options or the caller's, Context::None), its character source is the whole input (str::chars of the argument, the caller's iterator, or the bytes of the argument), its input adaptor is interpreted per item shape, every returning path passes through the core and the core's verdict is returned; plus C01.utf8: the byte decoder behind parse_slice* is either core::str::from_utf8-based (data flow checked: characters of the longest well-formed prefix, then exactly one error item iff ill-formed; std contract trusted) or utf8_decode::Decoder, which is then modelled at byte level (all paths of next() extracted, partition of the byte tuples checked, result expressions evaluated over all admissible tuples and compared with Unicode Table 3-7). Not a proof of the behavioural statement.",
+         "trusts: rustc MIR, the summary table (jsv/summ.py), the reference transducer, two private anchors (IndexMap bookkeeping, NumberBuf::new_unchecked), std's from_utf8 / valid_up_to / chars / chain contracts; nesting deeper than K is covered by the stack-discipline argument (push/pop/last only), not explored; iterator assumed fused.", "3/C01"),
  "C02": ("model_checking", "same product: output events of P compared with R per channel; extracted expressions compared by exhaustive evaluation",
          "On every accepting run of the P x R product the decoded characters (escape table, \\uXXXX accumulation compared with h3*4096+h2*256+h1*16+h0 over all 16^4 digit tuples, surrogate-pair formula compared over all 1024^2 pairs, raw characters), the number bytes, the literals and the append of every completed value/entry to the innermost open container are equal to the reference's.",
          "trusts NumberBuf::new_unchecked / SmallString::push / SmallVec::push to store what they are given; key lookup order relies on the index rules of C06.", "3/C02"),
@@ -15,19 +15,19 @@ CHECKS = {
          "No recursion cycle through crate code or drop glue of crate types reachable from the parsing and traversal roots (whole-program monomorphic call graph, drop glue included); every panic source (MIR asserts, panic entry points, contract-panicking std APIs) located in crate or sibling-crate code and reachable from those roots is discharged by the abstract interpreter (executed in the parser model under all four option valuations without a failing path) or is on a reviewed allowlist; every inter-read step of the model terminates.",
          "heap exhaustion excluded; std/smallvec/smallstr/hashbrown internals trusted; the recursive drop glue of Value is a recorded known finding.", "3/C03"),
  "C05": ("model_checking", "same product: fragment events (reserve/complete of code-map entries) of P compared with R; write-set rules",
-         "Fragment events of P (entry reserved with (position, position, 0); completed exactly once with end offset and volume = entries_now - index; none left open at Ok, none reopened) equal those of R (begin at the first significant character, end right after the last, pre-order) on all explored runs; positions are read ordinals advanced only by the consumed character's recorded length, and every entry point records len_utf8.",
+         "Fragment events of P (entry reserved with (position, position, 0); completed exactly once with end offset and volume = entries_now - index; none left open at Ok, none reopened) equal those of R (begin at the first significant character, end right after the last, pre-order) on all explored runs; positions are read ordinals advanced only by the consumed character's recorded length; C05.entry: every entry point starts the parser at offset 0, its adaptors record len_utf8 for every character, and the code map returned is the parser's.",
          "as C01; offsets compared as ordinals of reads (byte offsets by C01.entry's adaptor rule).", "3/C05"),
  "C07": ("model_checking", "same product: error variant, offset provenance and carried character compared with R on every rejecting transition",
-         "Whenever R has no transition on the character (or EOF) just read, P returns Unexpected with the offset ordinal of exactly that character and that character (None at EOF) before consuming anything further; stream errors carry the offset of the failed pull; surrogate errors carry the held/offending units and a span inside the escapes.",
+         "Whenever R has no transition on the character (or EOF) just read, P returns Unexpected with the offset ordinal of exactly that character and that character (None at EOF) before consuming anything further; stream errors carry the offset of the failed pull; surrogate errors carry the held/offending units and a span inside the escapes; C07.entry: every entry point returns the core's error unchanged (Stream(p,_) -> InvalidUtf8(p) on the byte paths), has no verdict of its own (all returning paths pass through the core), starts at offset 0 and records len_utf8 per character, so offsets are byte offsets on character boundaries.",
          "as C01; weak form for surrogate spans (start inside the escape(s), start <= end <= current offset).", "3/C07"),
  "C12": ("model_checking", "same product under the three lenient option valuations + option flow rule + preset evaluation",
-         "P(o) = R(o) (language, outputs, code map events, errors) for the three lenient valuations, where R(o) relaxes exactly the surrogate rules of the enabled flags; the flags are read only inside the string scanner; Options::default/strict/flexible evaluate to the documented records.",
+         "P(o) = R(o) (language, outputs, code map events, errors) for the three lenient valuations, where R(o) relaxes exactly the surrogate rules of the enabled flags — judged relative to the strict valuation: a deviation from the reference that the strict parser shows under the same key is left to C01/C02/C05/C07, only deviations specific to a lenient valuation are reported; the flags are read only inside the string scanner; Options::default/strict/flexible evaluate to the documented records.",
          "the configuration high-surrogate escape directly followed by another high-surrogate escape is unspecified and not constrained (printed as INFO).", "3/C12"),
  "C04": ("other", "abstract interpretation of the printer: per-character escape table vs RFC 8259/8785, emission token sequences, sizes/index lock-step, per-variant dispatch",
-         "Clause-wise: (esc) for every char the text string_literal writes decodes back to it under RFC 8259 section 7 and contains no raw quote/backslash/control; (tokens) everything the emitters write is a JSON token, a string literal, the number's text, a child, or whitespace from Spaces/IndentBy/newline, for n = 0..N children, expanded and inline; (order) children/entries once each, forward, key with its own value; (lockstep) one sizes slot reserved/consumed per container at entry, children forward, top level sizes the same value and starts at 0; (dispatch) per Value variant. Whole-value equality of the re-parse is the composition with C01/C02, not mechanised.",
+         "Clause-wise: (esc) for every char the text string_literal writes is a valid RFC 8259 string body that decodes back to it and contains no raw quote/backslash/control (which escapes are chosen is C08's business); (tokens) everything the emitters write is a JSON token, a string literal, the number's text, a child, or whitespace from Spaces/IndentBy/newline, for n = 0..N children, expanded and inline; (order) the non-whitespace tokens written equal the document's (children/entries once each, forward, key with its own value; layout is C13's business); (lockstep) one sizes slot reserved/consumed per container at entry, children forward, top level sizes the same value and starts at 0; (dispatch) per Value variant. Whole-value equality of the re-parse is the composition with C01/C02, not mechanised.",
          "loops unrolled for n <= 3 (quick) / 5 (thorough) children with a uniformity argument; Display for json_number::Number trusted; summary table.", "3/C04"),
  "C08": ("other", "abstract interpretation: escape table as a total function on char vs RFC 8785; preset evaluation; delegation chain; printer model without whitespace tokens",
-         "string_literal, extracted as a total function on char (interval partition, one abstract loop state), equals the RFC 8785 table for all 1,112,064 scalar values; Options::compact() evaluates to all spacing 0 / limits None; Display, to_string and From<Value> for String reach the printer with exactly that record and indentation 0, unconditionally; with that record the emission sequences contain no whitespace token; strings always go through string_literal and numbers through the number's Display.",
+         "string_literal, extracted as a total function on char (interval partition, one abstract loop state), equals the RFC 8785 table for all 1,112,064 scalar values; Options::compact() evaluates to all spacing 0 / limits None; Display, to_string and From<Value> for String reach the printer with exactly that record and indentation 0, unconditionally; with that record the emission sequences contain no whitespace token and the non-whitespace tokens of the inline scenarios equal the document's; strings always go through string_literal and numbers through the number's Display.",
          "Display for json_number::Number prints the stored text (dependency); summary table.", "3/C08"),
  "C13": ("other", "abstract interpretation of pre_compute_*/print_* with a symbolic option record: emission sequences and linear width forms vs the documented layout",
          "For arrays and objects with n = 0..N children, every Limit variant and expanded/inline decisions: the emission token sequence equals the documented layout with field identity (array_* vs object_*, *_empty, indent depth); the pre-computed width equals, as a linear form over the option fields, key widths and child widths, the character count of the inline emission; expanded iff a child is expanded or the documented limit predicate holds; printed_string_size counts exactly the characters string_literal writes; Spaces/IndentBy/Indent write exactly n spaces / k units.",
@@ -42,7 +42,7 @@ CHECKS = {
          "Coverage (numbers replaced unconditionally by NumberBuf::from_number(n.canonical_with(buffer)); every array item and entry value canonicalised with the same buffer; members sorted after the children on every path), ordering (the sort's comparator calls Iterator::cmp over encode_utf16() of both keys and no string/entry comparison of its own), strings (RFC 8785 table, total on char) and no-whitespace (compact record, printer model).",
          "NOT decided: the numeric rendering (nearest double, ECMAScript shortest form) is computed by json-number/lexical/ryu-js.", "3/C09"),
  "C10": ("other", "C06.pair rows of the sorting writers + C09 coverage/comparator rules + write-set rule",
-         "Necessary structural clauses: after the in-place sort the key index is cleared and rebuilt for every position (every sort dominates the clear, the clear every re-insert); children canonicalised before the parent is sorted on every path; canonicalisation assigns through `self` only the Number payload; the comparator is the position-independent total order on UTF-16 key sequences with the value as tie-break.",
+         "Necessary structural clauses: after the in-place sort the key index is cleared and rebuilt for every position (C06.pair rows sort / canonicalize_with only: every sort dominates the clear, the clear every re-insert); children canonicalised before the parent is sorted on every path; canonicalisation assigns through `self` only the Number payload; the comparator is the position-independent total order on UTF-16 key sequences with the value as tie-break.",
          "NOT decided: idempotence and spelling-independence of the numeric step (dependencies); whitespace/escape independence is C01/C02.", "3/C10"),
  "C11": ("other", "abstract interpretation of one step of each mapped iterator / fragment lookup / conversion, linear forms over offset and VOL[.]",
          "One next() of array::IterMapped, object::IterMapped and the four keyed Mapped* iterators (yields (o), (o, o+1, o+2) or value@o+2; steps by VOL[o] resp. 2+VOL[o+2], once per skipped entry; constructors start at offset+1); one level of Value/Entry/Object::get_fragment and get_array_fragment (0 -> self, 1 -> key, n -> value(n-2), remainder threaded in order, past-the-end distance); Traverse/SubFragments order; TryFromJson reports mismatches at the incoming offset, Option/Box pass it through, Vec/BTreeMap convert elements at mapped offsets.",
